@@ -314,6 +314,16 @@ static size_t fill_vals(int kind) {
         VALS[11] = 1ULL << 40;
         VALS[44] = 1ULL << 33;
         break;
+    case 16: /* 5000 consecutive values: one run */
+        for (n = 0; n < 5000; n++) {
+            VALS[n] = 100 + n;
+        }
+        break;
+    case 17: /* 4097 consecutive values ending at 65534 */
+        for (n = 0; n < 4097; n++) {
+            VALS[n] = 65534 - 4096 + n;
+        }
+        break;
     case 12: /* 300 distinct values: 2-byte dictionary indices */
         for (n = 0; n < 600; n++) {
             VALS[n] = (n % 300) * 1000003ULL + 17;
@@ -322,7 +332,7 @@ static size_t fill_vals(int kind) {
     }
     return n;
 }
-static const char *VALN[] = {"60 values over 5 distinct", "200 values over 40 distinct", "100 clustered values", "100 clustered values with 4 outliers", "300 strictly increasing small values", "300 sorted large values", "10500 pseudo-scattered values", "50 unsorted wide values", "5000 strictly increasing values", "ascending 0..49 with one duplicate", "200 values with range exactly 0xFF", "300 values with range exactly 0xFFFF", "600 values over 300 distinct", "21 scattered 9-byte values with an 8-byte spread and one outlier", "40 values: exceptions plus in-range values equal to min+0xFF", "60 values: exceptions plus in-range values equal to min+0xFFFF"};
+static const char *VALN[] = {"60 values over 5 distinct", "200 values over 40 distinct", "100 clustered values", "100 clustered values with 4 outliers", "300 strictly increasing small values", "300 sorted large values", "10500 pseudo-scattered values", "50 unsorted wide values", "5000 strictly increasing values", "ascending 0..49 with one duplicate", "200 values with range exactly 0xFF", "300 values with range exactly 0xFFFF", "600 values over 300 distinct", "21 scattered 9-byte values with an 8-byte spread and one outlier", "40 values: exceptions plus in-range values equal to min+0xFF", "60 values: exceptions plus in-range values equal to min+0xFFFF", "5000 consecutive values from 100", "4097 consecutive values ending at 65534"};
 
 static int same_u64(const uint64_t *a, const uint64_t *b, size_t n) { return memcmp(a, b, n * 8) == 0; }
 
@@ -853,6 +863,12 @@ static void build_scenarios(void) {
     add_sc("adaptive.EncodeWith[2]", 3, 12, 14, 0);
     add_sc("adaptive.EncodeWith[2]", 3, 12, 15, 0);
     add_sc("adaptive.Decode[2]", 3, 22, 14, 0);
+    for (int vk = 16; vk <= 17; vk++) {
+        add_sc("adaptive.Encode", 3, 1, vk, 0);
+        add_sc("adaptive.EncodeWith[4]", 3, 14, vk, 0);
+        add_sc("adaptive.EncodeWith[0]", 3, 10, vk, 0);
+        add_sc("adaptive.Decode[4]", 3, 24, vk, 0);
+    }
     add_sc("PFOR.ComputeThreshold", 1, 0, 10, 0);
     add_sc("adaptive.EncodeWith[2]", 3, 12, 10, 0);
     add_sc("adaptive.EncodeWith[2]", 3, 12, 11, 0);
